@@ -82,6 +82,9 @@ func (n *normalizer) flatText(from, to token.Pos, nodes []ast.Node, subst map[ty
 				}
 				if t, ok := subst[obj]; ok && obj != nil {
 					_, a := n.file(y.Pos())
+					if n.addrBound[obj] {
+						t = "(&" + t + ")"
+					}
 					reps = append(reps, rep{a, a + len(y.Name), t})
 				}
 			}
@@ -369,7 +372,7 @@ func (n *normalizer) inlineTailReturns(h *ast.FuncDecl, call *ast.CallExpr, lhs 
 		}
 		// all results of predeclared basic types: `a, b := "", 0` keeps the definition an
 		// assignment statement (the shape the split rules read)
-		allBasic := len(decl) == len(ls)
+		allBasic := true
 		var zeros []string
 		for i := range ls {
 			bt, ok := sig.Results().At(i).Type().(*types.Basic)
@@ -607,6 +610,11 @@ func (n *normalizer) bindCall(h *ast.FuncDecl, call *ast.CallExpr) (map[types.Ob
 					if v, ok := info.Uses[id].(*types.Var); ok && !v.IsField() && v.Parent() != p.P.Types.Scope() {
 						arg = id
 						simple = true
+						// outside a selector the parameter stands for the pointer: (&x)
+						if n.addrBound == nil {
+							n.addrBound = map[types.Object]bool{}
+						}
+						n.addrBound[b.obj] = true
 					}
 				}
 			}
@@ -1861,6 +1869,39 @@ func (n *normalizer) guardedInlinePass(fd *ast.FuncDecl) (bool, error) {
 					default:
 						okAll = false
 					}
+				case 0:
+					// `return g(x)` — an error the callee merely hands on: with the guard
+					// `err != nil` on that single result, it is `if e := g(x); e != nil { BODY[e] }`
+					// and otherwise the guard-fails continuation
+					be, isBin := ast.Unparen(site.cond).(*ast.BinaryExpr)
+					okForm := isBin && be.Op == token.NEQ && len(r.Results) == 1 && len(gvars) == 1 && gvars[0] != nil && !site.restUses &&
+						identObj(info, be.X) == gvars[0] && isNilIdent(info, be.Y)
+					if _, isCall := ast.Unparen(r.Results[0]).(*ast.CallExpr); !isCall {
+						okForm = false
+					}
+					if !okForm {
+						okAll = false
+						break
+					}
+					tmp := "err" + n.lastSfx
+					var nodes []ast.Node
+					for _, b := range site.body.List {
+						nodes = append(nodes, b)
+					}
+					bt, err := n.flatText(site.body.List[0].Pos(), site.body.List[len(site.body.List)-1].End(), nodes, map[types.Object]string{gvars[0]: tmp})
+					if err != nil {
+						okAll = false
+						break
+					}
+					text := "if " + tmp + " := " + rtexts[0] + "; " + tmp + " != nil { " + bt + " }"
+					switch {
+					case ast.Stmt(r) == lastStmt:
+						repls = append(repls, repl{r, text})
+					case tailLoop != nil && innermostBreakable(r) == ast.Node(tailLoop):
+						repls = append(repls, repl{r, "{ " + text + "; break }"})
+					default:
+						okAll = false
+					}
 				default:
 					okAll = false
 				}
@@ -1893,6 +1934,15 @@ func (n *normalizer) guardedInlinePass(fd *ast.FuncDecl) (bool, error) {
 				spans = append(spans, span{a, b, "\x00" + rp.text + "\x00"})
 			}
 			// identifiers (outside the replaced returns)
+			selX := map[*ast.Ident]bool{}
+			ast.Inspect(h.Body, func(x ast.Node) bool {
+				if se, ok := x.(*ast.SelectorExpr); ok {
+					if id, ok := se.X.(*ast.Ident); ok {
+						selX[id] = true
+					}
+				}
+				return true
+			})
 			ast.Inspect(h.Body, func(x ast.Node) bool {
 				if _, isRet := x.(*ast.ReturnStmt); isRet {
 					return false
@@ -1904,6 +1954,9 @@ func (n *normalizer) guardedInlinePass(fd *ast.FuncDecl) (bool, error) {
 					}
 					if t, ok := subst[obj]; ok && obj != nil {
 						_, a := n.file(id.Pos())
+						if n.addrBound[obj] && !selX[id] {
+							t = "(&" + t + ")"
+						}
 						spans = append(spans, span{a, a + len(id.Name), t})
 					}
 				}
